@@ -65,6 +65,13 @@ def replay_arma2psd(chk, st, cplx):
                 continue
             exp = g * n / d
             case = {'fn': 'arma2psd', 'A': a, 'B': b, 'rho': rho, 'T': T, 'NFFT': nfft, 'expect': exp}
+            # coefficient vectors as arrays or python lists (integer valued: lists of ints)
+            if (nfft + len(st['A'])) % 2 and not cplx:
+                a = None if a is None else [int(v) for v in a]
+                b = None if b is None else [int(v) for v in b]
+            elif (nfft + len(st['B'])) % 3 == 0:
+                a = None if a is None else list(a)
+                b = None if b is None else list(b)
             ok, res = call_guard(arma2psd, A=a, B=b, rho=rho, T=T, NFFT=nfft)
             chk.evaluations += 1
             if not ok:
